@@ -100,9 +100,10 @@ type world struct {
 	helperState string
 	// the twin: a second Limiter (limit 2) used alternately with the first by the submitter.
 	// Two limiters share nothing: neither may take the other's slots or wake the other's Wait.
-	tw                  *goz.Limiter
-	twSub, twDone, twIn int
-	helperDone          chan struct{}
+	tw                    *goz.Limiter
+	twSub, twDone, twIn   int
+	twHandled, twExpected []string
+	helperDone            chan struct{}
 }
 
 func goid() uint64 {
@@ -271,7 +272,11 @@ func (w *world) helper(l *goz.Limiter) {
 	}
 }
 
-func (w *world) twinTask() {
+func (w *world) twinTask(n int) func() {
+	return func() { w.twinBody(n) }
+}
+
+func (w *world) twinBody(n int) {
 	w.mu.Lock()
 	w.twIn++
 	if w.twIn > 2 {
@@ -283,12 +288,20 @@ func (w *world) twinTask() {
 	w.twIn--
 	w.twDone++
 	w.mu.Unlock()
+	if n%3 == 2 {
+		panic(fmt.Sprintf("twin task %d failed", n)) // must reach the twin's own handler only
+	}
 }
 
 func (w *world) submitter(l *goz.Limiter) {
 	w.hook("submitter.start")
 	if w.c.P("twin") == 1 {
 		w.tw = goz.NewLimiter(2)
+		w.tw.SetPanicHandler(func(p any) {
+			w.mu.Lock()
+			w.twHandled = append(w.twHandled, fmt.Sprint(p))
+			w.mu.Unlock()
+		})
 	}
 	for _, op := range w.c.Programs[0] {
 		switch op.Op {
@@ -311,8 +324,12 @@ func (w *world) submitter(l *goz.Limiter) {
 			if w.tw != nil {
 				w.mu.Lock()
 				w.twSub++
+				n := w.twSub
+				if n%3 == 2 {
+					w.twExpected = append(w.twExpected, fmt.Sprintf("twin task %d failed", n))
+				}
 				w.mu.Unlock()
-				w.tw.Go(w.twinTask)
+				w.tw.Go(w.twinTask(n))
 			}
 		case "Join":
 			if w.helperDone != nil {
@@ -678,6 +695,14 @@ func runCase(t *testing.T, c *sim.Case, script []int16, strict bool) (*sim.Viola
 			sort.Strings(b)
 			if strings.Join(a, "|") != strings.Join(b, "|") {
 				v = &sim.Violation{Class: "handler_mismatch", Site: site + ".SetPanicHandler", Detail: fmt.Sprintf("panic handler received %q, the panicking tasks raised %q", a, b)}
+			}
+		}
+		if v == nil && w.tw != nil {
+			a, b := append([]string{}, w.twHandled...), append([]string{}, w.twExpected...)
+			sort.Strings(a)
+			sort.Strings(b)
+			if strings.Join(a, "|") != strings.Join(b, "|") {
+				v = &sim.Violation{Class: "handler_mismatch", Site: site + ".SetPanicHandler", Detail: fmt.Sprintf("twin limiter (own handler, used alternately with the first): its handler received %q, its tasks raised %q", a, b)}
 			}
 		}
 	}
